@@ -112,7 +112,8 @@ def tlc(module, cfg=None, workers=8, timeout=1800, simulate=None, depth=None, se
     """Run TLC on spec/<module>.tla with spec/<cfg>. Returns TLCResult. Raises ToolError on
     parse/semantic errors and time-outs. An invariant violation is reported in .violated."""
     cfg = cfg or (module + ".cfg")
-    meta = os.path.join(WORK, "tlc", "%s_%d_%d" % (module, os.getpid(), int(time.time() * 1000) % 100000))
+    import uuid
+    meta = os.path.join(WORK, "tlc", "%s_%d_%s" % (module, os.getpid(), uuid.uuid4().hex[:12]))
     os.makedirs(meta, exist_ok=True)
     cmd = ["timeout", str(timeout), "tlc", "-workers", str(workers), "-metadir", meta, "-cleanup",
            "-noGenerateSpecTE", "-config", cfg]
@@ -507,10 +508,11 @@ def validate_trace(module, trace_path, cfg=None, timeout=1800, extra_env=None):
     if extra_env:
         env.update(extra_env)
     res = tlc(module, cfg, workers=1, timeout=timeout, env=env, jvm=TRACE_JVM + " -Xmx4g",
-              want_tags=("REJECTED", "CASE"))
+              want_tags=("REJECTED", "CASE", "BAD"))
     rej = res.cases.get("REJECTED", [])
-    out = {"accepted": res.violated is None and not rej, "violated": res.violated, "res": res,
-           "matched": None, "total": None}
+    bad = [b["line"] for b in res.cases.get("BAD", [])]
+    out = {"accepted": res.violated is None and not rej and not bad, "violated": res.violated, "res": res,
+           "matched": None, "total": None, "bad_lines": bad}
     if rej:
         out["matched"], out["total"] = rej[0].get("matched"), rej[0].get("total")
     elif res.violated is None:
